@@ -175,6 +175,10 @@ def run_model(module, cfg=None, workers=None, env=None, timeout=3600, extra=None
         args.append(module + '.tla')
         t0 = time.time()
         rc, out = _java(args, wd, env=env, timeout=timeout, heap=heap)
+        if rc in (137, -9, 143, -15):        # killed from outside (machine out of memory): once more
+            time.sleep(10)
+            shutil.rmtree(os.path.join(wd, 'states'), ignore_errors=True)
+            rc, out = _java(args, wd, env=env, timeout=timeout, heap=heap)
         gen, dist = parse_states(out)
         violated = None
         m = re.search(r'Invariant (\S+) is violated', out)
